@@ -187,17 +187,27 @@ def reexec_with_fixed_hashseed():
         os.execve(sys.executable, [sys.executable, "-B", os.path.abspath(__file__)] + sys.argv[1:], env)
 
 
+_KNOWN_RE = None
+
+
 def load_known():
+    """Parse /verif/known_findings.jsonl (text lines, see the header of that file)."""
+    import re
     path = os.path.join(VERIF, "known_findings.jsonl")
     known, fixed = {}, {}
+    rx = re.compile(r'^(known|fixed): property=(C\d+) (?:([0-9a-f]{7,40}) )?sig="([^"]*)" (.*)$')
     if os.path.exists(path):
         with open(path) as f:
             for line in f:
                 line = line.strip()
                 if not line or line.startswith("#"):
                     continue
-                ent = json.loads(line)
-                (known if ent.get("status") == "known" else fixed)[(ent["property"], ent["signature"])] = ent
+                m = rx.match(line)
+                if not m:
+                    raise HarnessError("unparseable line in known_findings.jsonl: %r" % line)
+                status, prop, commit, sig, what = m.groups()
+                ent = {"status": status, "property": prop, "commit": commit, "signature": sig, "what": what}
+                (known if status == "known" else fixed)[(prop, sig)] = ent
     return known, fixed
 
 
